@@ -35,7 +35,8 @@ Inductive revent : Type :=
 | EBlock (txs : list Z)                  (* a block is connected: its transactions leave the mempool (CTxMemPool::removeUnchecked bumps the
                                             sequence once per removed entry) and become the most recent block *)
 | EPeer (p : Z)                          (* a peer with transaction relay is initialised *)
-| ESnapshot (p : Z).                     (* SendMessages announces transactions to p (or answers its "mempool" request) *)
+| ESnapshot (p : Z)                      (* SendMessages announces transactions to p (or answers its "mempool" request) *)
+| EPrivate (tx : Z).                     (* BroadcastTransaction(NO_MEMPOOL_PRIVATE_BROADCAST): the transaction goes to the private-broadcast queue only *)
 
 Fixpoint find_entry (tx : Z) (l : list mentry) : option mentry :=
   match l with [] => None | e :: r => if m_tx e =? tx then Some e else find_entry tx r end.
@@ -65,6 +66,7 @@ Definition rstep (s : rst) (e : revent) : rst :=
   | ESnapshot p =>
     mkRst (r_seq s) (r_pool s) (r_recent s)
           (map (fun x => if pr_id x =? p then mkRpeer p (r_seq s) (Some (r_clock s)) else x) (r_peers s)) clk
+  | EPrivate tx => mkRst (r_seq s) (r_pool s) (r_recent s) (r_peers s) clk
   end.
 
 (* FindTxForGetData: is the GETDATA of peer p for tx answered with the transaction? *)
